@@ -24,6 +24,10 @@ func init() {
 		case d.Format == isaenc.VOP3b && d.Opcode == 488 && stats.KnownActive("C03-MAD64"):
 			// v_mad_u64_u32: decoded as VOP3a with 32-bit operands (C04-MAD64), executed accordingly
 			return "C03-MAD64"
+		case arch == isaspec.CDNA3 && d.Format == isaenc.FLAT && d.Seg == 0 && stats.KnownActive("C03-FLATSEG"):
+			// FLAT-segment instructions have no SADDR (the field is unused and encodes 0); decoder and
+			// CDNA3 ALU treat them as global_* with SADDR = s[0:1]
+			return "C03-FLATSEG"
 		case (d.Format == isaenc.VOP1 || d.Format == isaenc.VOPC) && d.Src0.Kind == isaenc.KLiteral &&
 			e.Src[0] == isaspec.TF64 && stats.KnownActive("C03-LIT64F"):
 			// a 32-bit literal feeding an FP64 operand supplies the HIGH dword; both wavefront
@@ -41,8 +45,51 @@ func init() {
 			ref.Marks = append(ref.Marks, isaspec.Mark{Kind: isaspec.CellSCC, Mask: 1, Why: "C03-SABS"})
 			return "C03-SABS"
 		}
+		// Fused multiply-adds are executed with two roundings (known finding C03-FMA, kept because
+		// shipped workloads verify bit-exactly against unfused host loops). For exactly these opcodes
+		// a destination register may hold either the fused (ISA) value or the unfused value
+		// round(round(a*b)+c) of the same operands; nothing else is relaxed.
+		if fmaOpcode(arch, d) && stats.KnownActive("C03-FMA") {
+			alt := new(isaspec.State)
+			alt.CopyFrom(st0)
+			if ok, err := isaspec.RunWith(arch, alt, d, isaspec.Options{UnfusedFMA: true}); ok && err == nil {
+				n := 0
+				for l := 0; l < 64; l++ {
+					for r := 0; r < 256; r++ {
+						if alt.VGPR[l][r] != ref.VGPR[l][r] {
+							ref.Marks = append(ref.Marks, isaspec.Mark{Kind: isaspec.CellVGPR, Index: r, Lane: l, HasAlt: true, Alt: alt.VGPR[l][r], Why: "C03-FMA"})
+							n++
+						}
+					}
+				}
+				for _, m := range alt.Marks {
+					// the unfused value is a NaN (Inf - Inf after the product overflowed): any NaN
+					if m.NaN == 32 || m.NaN == 64 {
+						ref.Marks = append(ref.Marks, isaspec.Mark{Kind: isaspec.CellVGPR, Index: m.Index, Lane: m.Lane, AltNaN: m.NaN, Why: "C03-FMA"})
+					}
+				}
+				if n > 0 {
+					return "C03-FMA"
+				}
+			}
+		}
 		return ""
 	}
+}
+
+// fmaOpcode: the fused multiply-add opcodes both manuals / the CDNA3 manual define.
+func fmaOpcode(arch isaspec.Arch, d isaenc.Desc) bool {
+	switch {
+	case d.Format == isaenc.VOP3a && d.Opcode == 460: // v_fma_f64 (both)
+		return true
+	case arch != isaspec.CDNA3:
+		return false
+	case d.Format == isaenc.VOP2 && (d.Opcode == 23 || d.Opcode == 24 || d.Opcode == 59): // v_fmamk/fmaak/fmac_f32
+		return true
+	case d.Format == isaenc.VOP3a && (d.Opcode == 459 || d.Opcode == 944): // v_fma_f32, v_pk_fma_f32
+		return true
+	}
+	return false
 }
 
 // absSourcePositive evaluates the 32-bit source of an s_abs_i32 description in the initial state.
